@@ -37,7 +37,9 @@ pub fn replay(cases: &[J]) -> J {
         let toks = |k: &str| -> Vec<String> { case[k].as_array().unwrap().iter().map(|t| t.as_str().unwrap().to_string()).collect() };
         let (min, full) = (toks("min"), toks("full"));
         let reference = parse_debug(&spaced(&full));
-        let variants = vec![("min spaced", spaced(&min)), ("min tight", tight(&min)), ("full tight", tight(&full))];
+        // the separator between two tokens is any white space: one token per line (each starting at column 0), a blank before the line break, tabs
+        let variants = vec![("min spaced", spaced(&min)), ("min tight", tight(&min)), ("full tight", tight(&full)),
+                            ("min one token per line", min.join("\n")), ("min line breaks after a blank", min.join(" \n")), ("min tabs / CRLF", min.join("\t\r\n"))];
         let mut bad = Vec::new();
         match &reference {
             Err(e) => bad.push(json!({"variant": "full spaced", "text": spaced(&full), "result": e})),
